@@ -74,8 +74,8 @@ func genQuery() *rapid.Generator[*Query] {
 		case idxLPM:
 			q.Pfx = genP().Draw(t, "pfx")
 		case idxULPM:
-			q.Key = genKeyN(3).Draw(t, "key")
-			q.Len = rapid.SampledFrom([]int{0, 4, 8, 12, 16, 24}).Draw(t, "len")
+			q.Key = rapid.OneOf(genKeyN(3), genKeyN(3), rapid.SampledFrom(deepIDs)).Draw(t, "key")
+			q.Len = rapid.SampledFrom([]int{0, 4, 8, 12, 16, 24, 28, 32}).Draw(t, "len")
 		case idxRev:
 			q.Rev = uint64(rapid.IntRange(0, 30).Draw(t, "rev"))
 			if q.Kind != qGet {
